@@ -1,6 +1,8 @@
 import RxVerif.Machine.Case
 import RxVerif.Oracle
 import RxVerif.Spec.Eval
+import RxVerif.Conc.Observer
+import RxVerif.Conc.ToVec
 open Rx
 
 partial def sexpMentions (a : String) : Sexp → Bool
@@ -42,6 +44,51 @@ partial def loopOracle (h out : IO.FS.Stream) : IO Unit := do
   out.putStrLn (oracleLine c.trimAscii.toString o.trimAscii.toString)
   loopOracle h out
 
+/-- co-simulation: every execution recorded from the real code must be a run of the Lean LTS -/
+def cosimLine (model : String) (line : String) : String :=
+  let parts := line.splitOn " | "
+  let id := (parts.headD "?") ++ " " ++ ((parts.getD 1 "").splitOn " ").headD ""
+  let payload := parts.getLast?.getD ""
+  match model with
+  | "obs" =>
+    match payload.splitOn " ; " with
+    | [hdr, labels] =>
+      let n := ((hdr.splitOn " ").filterMap fun t => if t.startsWith "n=" then (t.drop 2).toString.toNat? else none).headD 0
+      let tear := hdr.endsWith "tear=T"
+      match ConcObs.replayLines (ConcObs.init n tear) (labels.splitOn ";") with
+      | .ok st => id ++ " ok steps=" ++ toString st.log.length
+      | .error (k, msg) => id ++ " REJECT at label " ++ toString k ++ ": " ++ msg
+    | _ => id ++ " REJECT malformed payload"
+  | "tovec" =>
+    match payload.splitOn " ; " with
+    | [sc, res, labels] =>
+      match ToVec.parseScript (sc.drop 7).toString with
+      | none => id ++ " REJECT bad script"
+      | some script =>
+        let ls := (labels.splitOn ";").filter (· ≠ "")
+        match ls.mapM ToVec.parseLabel with
+        | none => id ++ " REJECT unparsable label"
+        | some lbls =>
+          -- find the first label the model refuses
+          let rec go (st : ToVec.State) (k : Nat) : List ToVec.Label → Except String ToVec.State
+            | [] => .ok st
+            | l :: rest => match ToVec.step script st l with
+              | some st' => go st' (k + 1) rest
+              | none => .error ("label " ++ toString k ++ " not enabled: " ++ ToVec.labelToStr l)
+          match go (ToVec.init script) 1 lbls with
+          | .ok st => id ++ " ok " ++ st.summary ++ " ;; impl " ++ res
+          | .error m => id ++ " REJECT " ++ m
+    | _ => id ++ " REJECT malformed payload"
+  | _ => id ++ " REJECT unknown model"
+
+partial def loopCosim (model : String) (h out : IO.FS.Stream) : IO Unit := do
+  let line ← h.getLine
+  if line.isEmpty then return ()
+  let l := line.trimAscii.toString
+  if l.isEmpty || (l.splitOn " | ").length < 4 then loopCosim model h out else
+  out.putStrLn (cosimLine model l)
+  loopCosim model h out
+
 partial def loopSpec (h out : IO.FS.Stream) : IO Unit := do
   let line ← h.getLine
   if line.isEmpty then return ()
@@ -56,4 +103,5 @@ def main (args : List String) : IO Unit := do
   match args with
   | ["oracle"] => loopOracle stdin stdout
   | ["spec"] => loopSpec stdin stdout
+  | ["cosim", m] => loopCosim m stdin stdout
   | _ => loopRun stdin stdout
